@@ -334,6 +334,81 @@ def cases(rng, which, count):
                 sm = esc(fasta(mr))
                 yield Case("cli_lib", [sm, "stats", "mutations", "--unique"], True, "cli-stats-mutations-unique")
                 yield Case("cli_lib", [sm, "stats", "mutations", "--ref-sequence", rng.choice(mr)[0]], True, "cli-stats-mutations-ref")
+            elif w == "mutlist":
+                # `stats mutations list [--aa]`: rows derived from a base sequence (substitutions, IUPAC codes, residues facing
+                # reference gaps, deleted stretches); the reference given by the name of a row (any row, not only the first),
+                # by the name of a FASTA file of the working directory (its first sequence), by a name that is neither, or
+                # not at all (the default `none`: refused); `--ref-sequence` in front of or behind the sub-command; a
+                # protein alignment (no `--aa` there); a Phylip input with several alignments (the first one is read)
+                def derived(base, names, sym):
+                    out = []
+                    for nm in names:
+                        sq = [(rng.choice(sym) if rng.random() < 0.25 else b) for b in base]
+                        if rng.random() < 0.5:
+                            a = rng.randrange(len(sq))
+                            for j in range(a, min(len(sq), a + rng.choice([1, 2, 3, 3, 6]))):
+                                sq[j] = "-"
+                        out.append((nm, "".join(sq)))
+                    return out
+                names = [r[0] for r in rows]
+                prot = rng.random() < 0.15
+                if prot:
+                    base = "".join(rng.choice("ARNDEFILPQ") for _ in range(L))
+                    mr = [(nm, sq[:-1] + rng.choice("EFILPQ")) for nm, sq in derived(base, names, "ARNDEQX-")]
+                else:
+                    base = "".join(rng.choice("ACGT") for _ in range(L))
+                    mr = derived(base, names, "ACGTNRYacgt-")
+                sm = esc(fasta(mr))
+                aa = ["--aa"] if rng.random() < (0.1 if prot else 0.6) else []
+                k = rng.random()
+                if k < 0.55:
+                    rf = ["--ref-sequence", rng.choice(names)]
+                    argv = rng.choice([["stats", "mutations", "list"] + aa + rf, ["stats", "mutations"] + rf + ["list"] + aa,
+                                       ["stats", "mutations", "list"] + rf + aa])
+                    yield Case("cli_lib", [sm] + argv, True, "cli-mutlist-name" + "".join(aa))
+                elif k < 0.65:
+                    yield Case("cli_lib", [sm, "stats", "mutations", "list"] + aa, True, "cli-mutlist-noref")
+                elif k < 0.75:
+                    yield Case("cli_libf", [sm, "_", "stats", "mutations", "list"] + aa + ["--ref-sequence", "nope"], True, "cli-mutlist-absent")
+                elif k < 0.9:
+                    Lr = L if rng.random() < 0.85 else L + rng.choice([-1, 1])
+                    fr = [("r%d" % i, "".join(rng.choice(base[j % L] + "ACGT-") if not prot else rng.choice(base[j % L] + "AR-") for j in range(max(1, Lr)))) for i in range(rng.randint(1, 2))]
+                    fr = [] if rng.random() < 0.07 else fr
+                    argv = rng.choice([["stats", "mutations", "list"] + aa + ["--ref-sequence", "ref.fa"], ["stats", "mutations", "--ref-sequence", "ref.fa", "list"] + aa])
+                    yield Case("cli_libf", [sm, "ref.fa=" + esc(fasta(fr))] + argv, True, "cli-mutlist-file" + "".join(aa))
+                else:
+                    als = [mr] + [derived("".join(rng.choice("ACGT") for _ in range(rng.randint(3, 12))), names, "ACGT-") for _ in range(rng.randint(1, 2))]
+                    txt = "".join(" %d %d\n" % (len(a), len(a[0][1])) + "".join("%s  %s\n" % r for r in a) for a in als)
+                    if not prot and all(set(sq) != {"-"} for sq in [r[1] for a in als for r in a]):
+                        yield Case("cli_lib", [esc(txt), "stats", "mutations", "list"] + aa + ["--ref-sequence", rng.choice(names), "-p"], True, "cli-mutlist-multi" + "".join(aa))
+            elif w == "mutcount":
+                # `stats mutations`: both flags together (the reference has priority), neither (refused), a reference read
+                # from a FASTA file (its first sequence; every row is counted), a name that is neither a row nor a file,
+                # a reference of another length, a protein alignment
+                names = [r[0] for r in rows]
+                prot = rng.random() < 0.2
+                sym, amb = ("ARNDEFILPQ", "ARNDEQX-") if prot else ("ACGT", "ACGTNRYacgt-")
+                base = "".join(rng.choice(sym) for _ in range(L))
+                mr = [(nm, "".join(rng.choice(amb) if rng.random() < 0.25 else b for b in base)) for nm in names]
+                if prot:
+                    mr = [(nm, sq[:-1] + rng.choice("EFILPQ")) for nm, sq in mr]
+                sm = esc(fasta(mr))
+                k = rng.random()
+                if k < 0.25:
+                    nm = rng.choice(names)
+                    fl = rng.choice([["--unique", "--ref-sequence", nm], ["--ref-sequence", nm, "--unique"]])
+                    yield Case("cli_lib", [sm, "stats", "mutations"] + fl, True, "cli-mutcount-both")
+                elif k < 0.35:
+                    yield Case("cli_lib", [sm, "stats", "mutations"], True, "cli-mutcount-noflag")
+                elif k < 0.5:
+                    yield Case("cli_lib", [sm, "stats", "mutations", "--unique"], True, "cli-mutcount-unique")
+                elif k < 0.6:
+                    yield Case("cli_libf", [sm, "_", "stats", "mutations", "--ref-sequence", "nope"], True, "cli-mutcount-absent")
+                else:
+                    Lr = L if rng.random() < 0.85 else L + rng.choice([-1, 1])
+                    fr = [("r%d" % i, "".join(rng.choice(base[j % L] + (amb if not prot else "AR-")) for j in range(max(1, Lr)))) for i in range(rng.randint(1, 2))]
+                    fr = [] if rng.random() < 0.07 else fr
+                    yield Case("cli_libf", [sm, "ref.fa=" + esc(fasta(fr)), "stats", "mutations", "--ref-sequence", "ref.fa"] + (["--unique"] if rng.random() < 0.3 else []), True, "cli-mutcount-file")
             elif w == "clean":
                 cut = rng.choice(["0", "0.25", "0.5", "0.75", "1", "0.1", "0.3"])
                 fl = []
